@@ -94,27 +94,54 @@ Definition C16_length_old_stmt : Prop :=
 Theorem C16_length_old_refuted : ~ C16_length_old_stmt.
 Proof. exact il_length_old_refuted. Qed.
 
-(** ** closest parameter: exact argmin for the discrete curve; for a function curve the result is at least as close
-    as every coarse sample, given that the minimiser does not return a point farther than its start point *)
+(** ** closest parameter: exact argmin for the discrete curve; for a function curve the search runs the bounded
+    minimiser from the [ns] coarse samples nearest to the query (3 after fixes/C16-2.diff; 1 in the snapshot) and
+    returns the best result: it is at least as close as every coarse sample, given that no run of the minimiser
+    returns a point farther than its start point *)
 Definition C16_closest_discrete_stmt : Prop :=
-  forall pts q, pts <> [] ->
+  (forall pts q, pts <> [] ->
     (dc_closest pts q < length pts)%nat /\
-    forall j, (j < length pts)%nat -> dist (dc_point pts (dc_closest pts q)) q <= dist (dc_point pts j) q.
+    forall j, (j < length pts)%nat -> dist (dc_point pts (dc_closest pts q)) q <= dist (dc_point pts j) q)
+  (* the refactored coarse stage (first entry of the stable argsort) is np.argmin *)
+  /\ (forall pts q, pts <> [] -> hd O (argsort (map (fun p => dist p q) pts)) = dc_closest pts q).
 Theorem C16_closest_discrete : C16_closest_discrete_stmt.
-Proof. exact dc_closest_spec. Qed.
+Proof.
+  split; [exact dc_closest_spec|]. intros pts q H. unfold dc_closest.
+  destruct (argsort_hd (map (fun p => dist p q) pts)) as (t & E); [destruct pts; [congruence|discriminate]|].
+  rewrite E. reflexivity.
+Qed.
 
 (** full statement: as close as every point of the curve between the bounds *)
 Definition C16_closest_dense_stmt : Prop :=
-  forall (minimise : R -> R) (f : R -> vec) lo hi cnt q, (1 <= cnt)%nat ->
+  forall (minimise : R -> R) (f : R -> vec) lo hi cnt ns q, (1 <= cnt)%nat -> (1 <= ns)%nat ->
     (forall t0, dist (f (minimise t0)) q <= dist (f t0) q) ->
-    forall t, lo <= t <= hi -> dist (f (fc_closest minimise f lo hi cnt q)) q <= dist (f t) q.
-(** proved part: as close as every coarse sample *)
+    forall t, lo <= t <= hi -> dist (f (fc_closest minimise f lo hi cnt ns q)) q <= dist (f t) q.
+(** proved part: every start is a coarse sample and the first one is the nearest sample; the result is the result
+    of one of the runs and at least as close as the result of every run - so never farther than what the
+    single-start search of the snapshot returns, which is the model with one start; and, for a minimiser that does
+    not return a point farther than its start, as close as EVERY coarse sample *)
 Definition C16_closest_dense_partial_stmt : Prop :=
-  forall (minimise : R -> R) (f : R -> vec) lo hi cnt q, (1 <= cnt)%nat ->
-    (forall t0, dist (f (minimise t0)) q <= dist (f t0) q) ->
-    forall j, (j < cnt)%nat -> dist (f (fc_closest minimise f lo hi cnt q)) q <= dist (f (lin_at lo hi cnt j)) q.
+  forall (minimise : R -> R) (f : R -> vec) lo hi cnt ns q, (1 <= cnt)%nat -> (1 <= ns)%nat ->
+    (forall s, In s (fc_starts f lo hi cnt ns q) -> exists k, (k < cnt)%nat /\ s = lin_at lo hi cnt k)
+    /\ (exists t, fc_starts f lo hi cnt ns q = fc_coarse f lo hi cnt q :: t)
+    /\ (exists s, In s (fc_starts f lo hi cnt ns q) /\ fc_closest minimise f lo hi cnt ns q = minimise s)
+    /\ (forall s, In s (fc_starts f lo hi cnt ns q) ->
+          dist (f (fc_closest minimise f lo hi cnt ns q)) q <= dist (f (minimise s)) q)
+    /\ dist (f (fc_closest minimise f lo hi cnt ns q)) q <= dist (f (minimise (fc_coarse f lo hi cnt q))) q
+    /\ fc_closest minimise f lo hi cnt 1 q = minimise (fc_coarse f lo hi cnt q)
+    /\ ((forall t0, dist (f (minimise t0)) q <= dist (f t0) q) ->
+        forall j, (j < cnt)%nat -> dist (f (fc_closest minimise f lo hi cnt ns q)) q <= dist (f (lin_at lo hi cnt j)) q).
 Theorem C16_closest_dense_partial : C16_closest_dense_partial_stmt.
-Proof. exact fc_closest_coarse. Qed.
+Proof.
+  intros minimise f lo hi cnt ns q Hc Hn.
+  split; [intros s; exact (fc_starts_samples f lo hi cnt ns q s)|].
+  split; [exact (fc_starts_hd f lo hi cnt ns q Hc Hn)|].
+  split; [exact (proj1 (fc_closest_runs minimise f lo hi cnt ns q Hc Hn))|].
+  split; [exact (proj2 (fc_closest_runs minimise f lo hi cnt ns q Hc Hn))|].
+  split; [exact (fc_closest_not_worse minimise f lo hi cnt ns q Hc Hn)|].
+  split; [exact (fc_closest_one minimise f lo hi cnt q Hc)|].
+  exact (fc_closest_coarse minimise f lo hi cnt ns q Hc Hn).
+Qed.
 
 (** for a line curve the exact optimum over the bounds is the clamped projection [line_topt]; the correspondence
     certifies on every line-curve query that the implementation's result is within 1e-4 x extent of it
@@ -191,6 +218,7 @@ Definition C16_corr_sound_stmt : Prop :=
   /\ (forall pts a b, map q2v (dc_discretize pts a b) = dc_discretize (map q2v pts) a b)
   /\ (forall pts a b, map q2v (dc_edge_points pts a b) = dc_edge_points (map q2v pts) a b)
   /\ (forall pts q, dc_closest (map q2v pts) (q2v q) = qclosest_idx pts q)
+  /\ (forall pts q ns, firstn ns (argsort (map (fun p => dist p (q2v q)) (map q2v pts))) = qstart_idxs pts q ns)
   (* comparisons: a passed check bounds the distance / the error of the length in the reals *)
   /\ (forall tol l m, (0 <= tol)%Q -> qclose_list tol l m = true -> close_list (Q2R tol) (map q2v l) (map q2v m))
   /\ (forall tol l L, qlen_ok tol l L = true -> Rabs (polylen (map q2v l) - Q2R L) <= Q2R tol)
@@ -206,6 +234,7 @@ Proof.
   - intros. apply dc_discretize_map.
   - intros. apply dc_edge_points_map.
   - exact qclosest_idx_sound.
+  - exact qstart_idxs_sound.
   - intros tol l m H. exact (qclose_list_sound tol H l m).
   - exact qlen_ok_sound.
   - exact qlen_ok_cd_sound.
